@@ -79,7 +79,7 @@ theorem none_crash_reopens (c : Cfg) (hk : c.kind = .none) (hro : c.ro = false) 
     (progs : List (List NOp)) (hok : ∀ ops ∈ progs, ∀ op ∈ ops, op.ok) (sched : List (Nat × Bool))
     (magic : Nat) (o : OpenOpts) (tail : Mem)
     (hwf : C05.WellFormedFile c sh.st magic) (ho : C05.Matches o c magic)
-    (hr : o.sync = true → 1 ≤ o.retries ∧ o.retries ≤ 255) :
+    (hr : o.sync = true → o.retries ≤ 255) :
     let g0 : Global (List Meta) := { sh := sh, threads := progs.map (fun ops => noneProg c sh.st.cap fuel ops []) }
     let g := (g0.run sched).1
     (match o.cap with
@@ -102,7 +102,7 @@ theorem none_crash_reopens_cap (c : Cfg) (hk : c.kind = .none) (hro : c.ro = fal
     (hcap : match o.cap with
       | some n => sh.st.cap ≤ n ∧ n + 8192 ≤ TWO32
       | none => (sh.st.cap + tail.size) + 8192 ≤ TWO32)
-    (hr : o.sync = true → 1 ≤ o.retries ∧ o.retries ≤ 255) :
+    (hr : o.sync = true → o.retries ≤ 255) :
     let g0 : Global (List Meta) := { sh := sh, threads := progs.map (fun ops => noneProg c sh.st.cap fuel ops []) }
     let g := (g0.run sched).1
     ∃ ghs r fs', NInv sh.st.cap sh.st.allocated sh.st.discarded g ghs ∧
@@ -132,7 +132,7 @@ theorem none_crash_reopened_later_ops (c : Cfg) (hk : c.kind = .none) (hro : c.r
     (progs : List (List NOp)) (hok : ∀ ops ∈ progs, ∀ op ∈ ops, op.ok) (sched : List (Nat × Bool))
     (magic : Nat) (o : OpenOpts) (tail : Mem)
     (hwf : C05.WellFormedFile c sh.st magic) (ho : C05.Matches o c magic)
-    (hr : o.sync = true → 1 ≤ o.retries ∧ o.retries ≤ 255)
+    (hr : o.sync = true → o.retries ≤ 255)
     (n fuel' : Nat) (hn : n < TWO32) (hfuel' : 2 ≤ fuel') :
     let g0 : Global (List Meta) := { sh := sh, threads := progs.map (fun ops => noneProg c sh.st.cap fuel ops []) }
     let g := (g0.run sched).1
